@@ -70,6 +70,9 @@ def lower_unit(u, outdir):
                 f.ctor_as_method = True
             if t.get('truncate_after'):
                 f.truncate_after = t['truncate_after']
+            if t.get('keep_top'):
+                f.keep_top = [tuple(x) for x in t['keep_top']]
+                f.export_locals = t.get('export_locals', [])
         f.is_target = True
     L.run()
     for f in L.fn_order:
